@@ -77,14 +77,15 @@ CHECKS["C15"] = {
 }
 
 CHECKS["C09"] = {
-    "text": "Lean theorems: (trie) the node-allocation loop of arraymap.set preserves well-formedness of the pointer array, reaches the key, keeps every old "
-            "walk and adds none off the inserted path; a new or flushed map misses every key; (abstract) for every history of cached-wrapper calls with "
+    "text": "Lean theorems: (trie) a well-formed arraymap IS a finite map: set refines old[key := v] through every combination of node allocation, tree growth, "
+            "value-slot allocation and value-array growth, or yields a well-formed empty map on overflow; get returns the represented value with NaN as miss; "
+            "every history of stores of f(key) from a new map of any size stays coherent; (abstract) for every history of cached-wrapper calls with "
             "arbitrary store / flush outcomes every served value equals the fresh value; (sampler) the carried likelihood equals f(genotype) after every "
             "move and exchange. Tied to the code by get/set histories with forced growth and flushes against the model, jitted trace recomputation, cache "
             "on/off trajectories, and monitors on every cached wrapper of the three samplers run as plain Python.",
     "design_ref": "DESIGN.md section 4, C09",
-    "note": _NOTE + "The value-slot / growth / flush half of the refinement (arraymap.set = finite-map update or flush) is validated by the history "
-            "correspondence and a dict oracle rather than proved; sampler-level claims are observed, the abstract theorems explain why they hold.",
+    "note": _NOTE + "Array bounds (no out-of-range index) are checked at run time by the driver, not proved; sampler-level claims are observed on the "
+            "real samplers, the abstract theorems explain why they hold.",
     "technique": "Lean 4 proof (trie invariant by induction on the key, history induction over an abstract cache) + operation-sequence correspondence + monitored sampler runs",
 }
 
